@@ -346,17 +346,66 @@ fn fixed_pre() -> Pre {
 fn process_input_routing_body(n: usize) {
     let raw: [u8; PL] = kani::any();
     kani::assume(n <= PL);
+    // alphabet: the bytes routing can depend on (separator, dash, the letters of `help`),
+    // another letter and a 2-byte scalar; classification of arbitrary bytes is C08's query
+    let mut i = 0;
+    while i < PL {
+        let b = raw[i];
+        kani::assume(b == 0 || b == b'-' || b == b'h' || b == b'e' || b == b'l' || b == b'p' || b == b'x' || b == 0xC3 || b == 0xA9);
+        i += 1;
+    }
     kani::assume(wf_utf8(&raw, n));
     let is_empty: bool = kani::any();
     kani::assume(!is_empty || n == 0);
     let parsed = parse_raw::<PL, PL1>(&raw, n);
     kani::assume(!parsed.help_open);
-    let mut cli = build(&fixed_pre(), TailSink::<4>::new());
-    let mut seen = Seen::<PL, PL1>::new();
+    let mut cli = build(&fixed_pre(), CountSink::new());
     let text = unsafe { core::str::from_utf8_unchecked(&raw[..n]) };
+    let base = text.as_ptr() as usize;
+    // what the handler saw, by position in the token buffer: name, number of items, first item
+    let mut calls = 0usize;
+    let mut name_off = 0usize;
+    let mut name_len = 0usize;
+    let mut nitems = 0usize;
+    let mut first_kind = 255u8;
+    let mut first_off = 0usize;
+    let mut first_len = 0usize;
+    let mut first_scalar = 0u32;
     let r = {
-        let mut p = RawCommand::processor(|_h: &mut CliHandle<'_, TailSink<4>, Infallible>, c: RawCommand<'_>| {
-            seen.record(&c);
+        let mut p = RawCommand::processor(|_h: &mut CliHandle<'_, CountSink, Infallible>, c: RawCommand<'_>| {
+            calls += 1;
+            name_len = c.name().len();
+            name_off = c.name().as_ptr() as usize - base;
+            let mut it = c.args().args();
+            let mut k = 0;
+            while k < PL1 {
+                match it.next() {
+                    None => {}
+                    Some(a) => {
+                        if k == 0 {
+                            match a {
+                                embedded_cli::arguments::Arg::Value(v) => {
+                                    first_kind = ma::VALUE;
+                                    first_len = v.len();
+                                    first_off = v.as_ptr() as usize - base;
+                                }
+                                embedded_cli::arguments::Arg::LongOption(v) => {
+                                    first_kind = ma::LONG;
+                                    first_len = v.len();
+                                    first_off = v.as_ptr() as usize - base;
+                                }
+                                embedded_cli::arguments::Arg::ShortOption(ch) => {
+                                    first_kind = ma::SHORT;
+                                    first_scalar = ch as u32;
+                                }
+                                embedded_cli::arguments::Arg::DoubleDash => first_kind = ma::DD,
+                            }
+                        }
+                        nitems = k + 1;
+                    }
+                }
+                k += 1;
+            }
             Ok(())
         });
         cli.__verif_process_input::<RawCommand<'_>, _>(Tokens::from_raw(text, is_empty), &mut p)
@@ -364,9 +413,20 @@ fn process_input_routing_body(n: usize) {
     assert!(r.is_ok());
     let help = cfg!(feature = "help") && parsed.help_shaped;
     let dispatch = !is_empty && !help;
-    assert!(seen.calls == if dispatch { 1 } else { 0 }, "C01/C12: handler entered exactly once iff a non-help command was submitted");
+    assert!(calls == if dispatch { 1 } else { 0 }, "C01/C12: handler entered exactly once iff a non-help command was submitted");
     if dispatch {
-        assert!(seen_matches(&seen, &parsed), "C01: handler saw exactly the tokens of the line");
+        // name = first token, arguments = the remaining tokens (classified as C08 says)
+        assert!(name_len == parsed.name_len && (name_len == 0 || name_off == 0), "C01: handler saw exactly the command name");
+        assert!(nitems == parsed.nitems, "C01: handler saw exactly the argument items of the line");
+        if parsed.nitems > 0 {
+            let shift = parsed.name_len + 1;
+            assert!(first_kind == parsed.items.kind[0], "C01: first argument item");
+            if first_kind == ma::SHORT {
+                assert!(first_scalar == parsed.items.scalar[0], "C01: first argument item");
+            } else if first_kind != ma::DD {
+                assert!(first_len == parsed.items.len[0] && (first_len == 0 || first_off == shift + parsed.items.off[0]), "C01: first argument item");
+            }
+        }
     }
     assert!(cli.__verif_writer().pending == 0, "C15: flushed");
     // with the raw command set, help for any command is `error: unknown command`; `help` alone lists nothing
